@@ -428,9 +428,30 @@ func replayMatch(sc *simScenario, hist []simEvent, want string) (*simState, erro
 }
 
 // expand computes all successors of the state reached by req.Hist.
+// isStuckErr tells whether err is the lock-step watchdog's verdict.
+func isStuckErr(err error) bool {
+	return err != nil && (errors.Is(err, errSimStuck) || strings.Contains(err.Error(), "stuck"))
+}
+
+// simPatient raises the watchdog for the confirmation of a suspected hang: a
+// step that did not come back within the normal watchdog is executed once more,
+// on a fresh world, with a much longer one before it is reported (a loaded
+// machine must not turn into a "deadlock").
+func simPatient() func() {
+	old := simWatchdog
+	simWatchdog = 60 * time.Second
+	return func() { simWatchdog = old }
+}
+
 func expandState(sc *simScenario, req *expandReq) *expandResp {
 	resp := &expandResp{ID: req.ID}
 	s, err, matched := replayMatch(sc, req.Hist, req.Hash)
+	if isStuckErr(err) {
+		s.close()
+		restore := simPatient()
+		s, err, matched = replayMatch(sc, req.Hist, req.Hash)
+		restore()
+	}
 	if err != nil {
 		resp.Err = describeErr(s, err)
 		s.close()
@@ -490,7 +511,22 @@ func expandState(sc *simScenario, req *expandReq) *expandResp {
 			risk := cur.w.mapOrderRisk() || (e.K == "AD" && (strings.HasPrefix(e.S, "demote2") || e.S == "transfer:0"))
 			nv := len(cur.w.led.viol)
 			rec := succRec{Ev: e}
-			if err := cur.apply(e, false); err != nil {
+			err := cur.apply(e, false)
+			if isStuckErr(err) {
+				// confirm on a fresh world with a patient watchdog
+				cur.close()
+				restore := simPatient()
+				var ok bool
+				cur, err, ok = replayMatch(sc, req.Hist, parentHash)
+				if err == nil && ok {
+					nv = len(cur.w.led.viol)
+					err = cur.apply(e, false)
+				} else if err == nil {
+					err = fmt.Errorf("parent state not reproduced in %d attempts", simOrderRetries)
+				}
+				restore()
+			}
+			if err != nil {
 				rec.Err = describeErr(cur, err)
 			} else {
 				rec.Hash = cur.hash()
@@ -764,7 +800,7 @@ func (wk *simWorker) stop() {
 	}
 }
 
-var simCallTimeout = 120 * time.Second
+var simCallTimeout = 10 * time.Minute // a hang is confirmed inside the worker with a patient watchdog first
 
 // explore runs the deviation-bounded breadth-first search of one scenario.
 func explore(sc *simScenario, budget time.Duration, maxStates int) *exploreResult {
@@ -991,7 +1027,53 @@ func explore(sc *simScenario, budget time.Duration, maxStates int) *exploreResul
 	close(jobs)
 	// drain
 	go func() { wg.Wait(); close(results) }()
-	for range results {
+	// the expansions that were still running when the budget ended: their states are not counted and not
+	// expanded further, but what they found is not thrown away
+	for r := range results {
+		hist := r.node.history()
+		if r.err != nil {
+			res.WorkerDeaths++
+			res.Errors = append(res.Errors, fmt.Sprintf("worker died expanding %v: %v", hist, r.err))
+			if errors.Is(r.err, errClosedRead) {
+				addFinding(simViolation{Oracle: "view", Key: "read-through-unmapped-segment", Desc: "a successor of this state reads log data through a segment that was already unmapped by compaction/reset: " + r.err.Error()}, hist)
+			} else {
+				addFinding(simViolation{Oracle: "alive", Key: "worker-died", Desc: fmt.Sprintf("worker process died (fatal error / crash) while expanding this state: %v", r.err)}, hist)
+			}
+			continue
+		}
+		if r.resp == nil {
+			continue
+		}
+		if r.resp.Err != "" {
+			if strings.Contains(r.resp.Err, "stuck") {
+				addFinding(simViolation{Oracle: "alive", Key: "stuck-step", Desc: r.resp.Err}, hist)
+			}
+			continue
+		}
+		for _, v := range r.resp.Final {
+			addFinding(v, hist)
+		}
+		for _, sr := range r.resp.Succ {
+			h2 := append(r.node.history(), sr.Ev)
+			if sr.Err != "" {
+				if strings.Contains(sr.Err, "stuck") {
+					addFinding(simViolation{Oracle: "alive", Key: "stuck-step:" + sr.Ev.K, Desc: sr.Err}, h2)
+				}
+				continue
+			}
+			for _, v := range sr.Viol {
+				addFinding(v, h2)
+			}
+			for _, cr := range sr.Chain {
+				h2 = append(h2, cr.Ev)
+				for _, v := range cr.Viol {
+					addFinding(v, h2)
+				}
+				for _, v := range cr.Final {
+					addFinding(v, h2)
+				}
+			}
+		}
 	}
 	res.Exhaustive = !capped && len(res.Errors) == 0
 	res.Wall = time.Since(start).Seconds()
